@@ -166,18 +166,22 @@ def _w(prop, nmods, maxdev, depth, dl, k=1):
 
 CHECKS['SMOKE'] = dict(title='world smoke', parallel=1, parts=[world_part('w', quick=[_w('SMOKE', 2, 0, 4, 60)], thorough=[_w('SMOKE', 2, 0, 6, 300)])])
 
-CHECKS['C01'] = dict(title='module lifecycle', parallel=1,
-    parts=[world_part('w', quick=[_w('C01', 2, 1, 5, 150)], thorough=[_w('C01', 3, 2, 8, 1500, 2)])])
-CHECKS['C02'] = dict(title='pub/sub', parallel=1,
-    parts=[world_part('w', quick=[_w('C02', 2, 1, 4, 150)], thorough=[_w('C02', 3, 2, 7, 1500, 2)])])
-CHECKS['C07'] = dict(title='C07', parallel=1, parts=[world_part('w', quick=[_w('C07', 2, 1, 5, 150)], thorough=[_w('C07', 3, 2, 8, 1500, 2)])])
-CHECKS['C08'] = dict(title='C08', parallel=1, parts=[world_part('w', quick=[_w('C08', 2, 0, 5, 150)], thorough=[_w('C08', 3, 1, 8, 1500, 2)])])
-CHECKS['C15'] = dict(title='C15', parallel=1, parts=[world_part('w', quick=[_w('C15', 2, 1, 4, 150)], thorough=[_w('C15', 3, 2, 6, 1500, 2)])])
-CHECKS['C16'] = dict(title='C16', parallel=1, parts=[world_part('w', quick=[_w('C16', 2, 3, 5, 150)], thorough=[_w('C16', 3, 4, 8, 1500, 2)])])
-CHECKS['C17'] = dict(title='C17', parallel=1, parts=[world_part('w', quick=[_w('C17', 2, 2, 5, 150)], thorough=[_w('C17', 3, 3, 8, 1500, 2)])])
-CHECKS['C19'] = dict(title='C19', parallel=1, parts=[world_part('w', quick=[_w('C19', 2, 0, 5, 150)], thorough=[_w('C19', 3, 1, 8, 1500, 2)])])
-CHECKS['C09'] = dict(title='C09', parallel=1, parts=[world_part('w', quick=[_w('C09', 1, 0, 4, 150)], thorough=[_w('C09', 2, 1, 6, 1500, 2)])])
-CHECKS['C03'] = dict(title='C03', parallel=1, parts=[world_part('w', quick=[_w('C03', 2, 1, 4, 150)], thorough=[_w('C03', 3, 2, 6, 1500, 2)])])
-CHECKS['C13'] = dict(title='C13', parallel=1, parts=[world_part('w', quick=[_w('C13', 1, 0, 5, 150)], thorough=[_w('C13', 2, 1, 8, 1500, 2)])])
-CHECKS['C18'] = dict(title='C18', parallel=1, parts=[world_part('w', quick=[_w('C18', 2, 0, 5, 150)], thorough=[_w('C18', 3, 1, 7, 1500, 2)])])
-CHECKS['C20'] = dict(title='C20', parallel=1, parts=[world_part('w', quick=[_w('C20', 2, 1, 4, 150)], thorough=[_w('C20', 3, 2, 6, 1500, 2)])])
+# property: (modules, deviation budget, depth) for quick and thorough; every run finishes whole BFS levels only
+_WORLD = {
+    'C01': ((2, 1, 5), (3, 2, 7)),
+    'C02': ((2, 1, 4), (3, 2, 6)),
+    'C03': ((2, 1, 3), (2, 2, 5)),
+    'C07': ((2, 1, 6), (3, 2, 8)),
+    'C08': ((2, 0, 4), (3, 0, 6)),
+    'C09': ((1, 0, 4), (1, 0, 6)),
+    'C13': ((1, 0, 6), (2, 0, 8)),
+    'C15': ((2, 1, 4), (3, 2, 6)),
+    'C16': ((2, 3, 4), (2, 4, 6)),
+    'C17': ((2, 2, 5), (2, 3, 7)),
+    'C18': ((2, 0, 4), (2, 0, 6)),
+    'C19': ((2, 0, 6), (3, 0, 8)),
+    'C20': ((2, 1, 4), (2, 2, 6)),
+}
+for _p, (_q, _t) in _WORLD.items():
+    CHECKS[_p] = dict(title=_p, parallel=1,
+                      parts=[world_part('w', quick=[_w(_p, _q[0], _q[1], _q[2], 200)], thorough=[_w(_p, _t[0], _t[1], _t[2], 2400, 2)])])
